@@ -235,8 +235,7 @@ SIGNATURES = {
     "arc-inspect-not-dependent": lambda p, kind, o: kind in ("missing", "missed_failure")
     and in_two_threads(p, {"acount"}, {"adrop", "aclone", "adec", "ainc", "aunwrap", "agetmut"}),
     # F9: a thread pending on a try-acquire is blocked by another thread's acquisition
-    "try-acquire-blocked": lambda p, kind, o: has(p, "trylock", "tryrd", "trywr") and (
-        kind == "missing" or (kind == "forbidden" and verdict(o) == "deadlock")),
+    "try-acquire-blocked": lambda p, kind, o: has(p, "trylock", "tryrd", "trywr") and kind == "missing",
     # F5/F6: unpark wakes a thread that is blocked on something else (internal assertion / token spent)
     "unpark-misdirected": lambda p, kind, o: has(p, "unpark") and kind == "forbidden"
     and (verdict(o) in ASSERTS or verdict(o) == "deadlock"),
